@@ -8,6 +8,10 @@ case kinds
   trend   {"degree", "icpt", "y", "origin", "idx", "fh", "rel"}         (values; model line only for degree <= 1)
   design  {"degree", "icpt", "n", "origin", "fh", "rel"}               (design matrices received by a recording regressor)
   adapter {"cls": "ses"|"holt"|"holtd"|"hw"|"ets"|"etsa"|"theta", "y", "origin", "idx", "fh", "rel"}
+naive / trend / design cases may carry an OBJECT HISTORY "hist": the same estimator object is first constructed with
+hist["params"], fitted on hist["y"] (origin hist["origin"]) and asked for a forecast, then re-parameterised with set_params
+(the case's parameters) and fitted on the case's data.  Every naive / trend case also asks for the forecast twice and
+compares the caller's series before and after.
 `fh` holds RELATIVE steps; with rel = False the horizon is passed to sktime in absolute form (cutoff + step).
 """
 import itertools, math, warnings
@@ -58,6 +62,7 @@ ASSUMPTIONS = ["exact rational arithmetic (dyadic inputs; Python floats compared
 RULE = ("fixed-order small scope: every (strategy, n<=14, sp<=4, window_length in {None} u 1..n) x (full horizon {-3..9}, every single step, "
         "random subsets) x (without / with NaN), all non-empty subsets of {-3..9} for 4 configurations (quick: seed-rotated 1/12 resp. 1/32 slice); "
         "structured random larger cases (n<60, sp<=12); malformed stream; trend values for degree 0..4, design matrices degree 0..5; "
+        "object history (about 1/3 of the naive and 1/2 of the trend/design cases: fit on other data with other parameters, predict, set_params, fit, predict; compared with the textbook value AND a fresh object), second predict and caller-series snapshot on every naive/trend case; "
         "5 statsmodels adapters + Theta vs direct statsmodels calls. distinct by driver line; non-trivial = a forecast with at least one finite value")
 LEVEL_TEXT = ("Lean 4 theorems (all series, periods, window lengths - multiples of the period or not -, horizons in-sample and "
               "out-of-sample) that the model of NaiveForecaster / PolynomialTrendForecaster / the statsmodels adapter computes the textbook "
@@ -179,60 +184,143 @@ def _wl(c):
     return "none" if c["wl"] is None else str(c["wl"])
 
 
+def _fh_line(c, n):
+    return show_ints(c["fh"]) if c["rel"] else show_ints([c["origin"] + n - 1 + h for h in c["fh"]])
+
+
+def _st(name):
+    return name if name in ("last", "mean", "drift") else "other"
+
+
 def to_line(c):
     k = c["kind"]
+    h = c.get("hist")
     if k == "naive":
-        st = c["strategy"] if c["strategy"] in ("last", "mean", "drift") else "other"
-        return "C11 naive %s %d %s %d %s %s %s" % (st, c["sp"], _wl(c), c["origin"], show_rats(c["y"]),
-                                                   show_ints(c["fh"]) if c["rel"] else show_ints([c["origin"] + len(c["y"]) - 1 + h for h in c["fh"]]),
-                                                   show_bool(c["rel"]))
+        tail = "%s %d %s %d %s %s %s" % (_st(c["strategy"]), c["sp"], _wl(c), c["origin"], show_rats(c["y"]),
+                                         _fh_line(c, len(c["y"])), show_bool(c["rel"]))
+        if h:
+            hp = h["params"]
+            return "C11 naiveh %s %d %s %d %s %s" % (_st(hp["strategy"]), hp["sp"], "none" if hp["wl"] is None else str(hp["wl"]),
+                                                     h["origin"], show_rats(h["y"]), tail)
+        return "C11 naive " + tail
     if k == "trend":
         if c["degree"] > 1:
             return None
-        return "C11 trend %d %s %d %s %s %s" % (c["degree"], show_bool(c["icpt"]), c["origin"], show_rats(c["y"]),
-                                                 show_ints(c["fh"]) if c["rel"] else show_ints([c["origin"] + len(c["y"]) - 1 + h for h in c["fh"]]),
-                                                 show_bool(c["rel"]))
+        tail = "%d %s %d %s %s %s" % (c["degree"], show_bool(c["icpt"]), c["origin"], show_rats(c["y"]),
+                                      _fh_line(c, len(c["y"])), show_bool(c["rel"]))
+        if h:
+            hp = h["params"]
+            return "C11 trendh %d %s %d %s %s" % (hp["degree"], show_bool(hp["icpt"]), h["origin"], show_rats(h["y"]), tail)
+        return "C11 trend " + tail
     if k == "design":
-        return "C11 design %d %s %d %d %s %s" % (c["degree"], show_bool(c["icpt"]), c["origin"], c["n"],
-                                                  show_ints(c["fh"]) if c["rel"] else show_ints([c["origin"] + c["n"] - 1 + h for h in c["fh"]]),
-                                                  show_bool(c["rel"]))
+        tail = "%d %s %d %d %s %s" % (c["degree"], show_bool(c["icpt"]), c["origin"], c["n"], _fh_line(c, c["n"]), show_bool(c["rel"]))
+        if h:
+            hp = h["params"]
+            return "C11 designh %d %s %d %d %s" % (hp["degree"], show_bool(hp["icpt"]), h["origin"], len(h["y"]), tail)
+        return "C11 design " + tail
     if k == "adapter":
         try:
             dense = _direct_dense(c)
         except Exception:
             return None
         n = len(c["y"])
-        return "C11 adapter %d %d %s %s %s" % (c["origin"], n,
-                                                show_ints(c["fh"]) if c["rel"] else show_ints([c["origin"] + n - 1 + h for h in c["fh"]]),
-                                                show_bool(c["rel"]), show_rats(dense))
+        return "C11 adapter %d %d %s %s %s" % (c["origin"], n, _fh_line(c, n), show_bool(c["rel"]), show_rats(dense))
     raise ValueError(k)
 
 
 # ----------------------------------------------------------------------------- real code
+def _make(c, params=None):
+    if c["kind"] == "naive":
+        from sktime.forecasting.naive import NaiveForecaster
+        p = params or {"strategy": c["strategy"], "sp": c["sp"], "wl": c["wl"]}
+        return NaiveForecaster(strategy=p["strategy"], sp=p["sp"], window_length=p["wl"])
+    from sktime.forecasting.trend import PolynomialTrendForecaster
+    p = params or {"degree": c["degree"], "icpt": c["icpt"]}
+    return PolynomialTrendForecaster(degree=p["degree"], with_intercept=p["icpt"])
+
+
+def _same_series(a, b):
+    return (len(a) == len(b) and list(a.index) == list(b.index)
+            and np.array_equal(np.asarray(a.values, dtype="float64"), np.asarray(b.values, dtype="float64"), equal_nan=True))
+
+
+def _attempt(f):
+    try:
+        return f()
+    except Exception as e:
+        return canon_err(e)
+
+
+def _run_object(c):
+    """One estimator object through its (optional) history, then fit on the case's data and predict.
+    Output: the first forecast (or the error of fit / first predict), followed by the flags
+      again=T|F  a second predict(fh) on the same object returns exactly the first answer
+      kept=T|F   the series the caller passed to fit is unchanged after fit + predict + predict
+      fresh=T|F  (history cases) the answer equals that of a newly constructed object with the same parameters and data"""
+    y = _series(c)
+    y_before = y.copy(deep=True)
+    h = c.get("hist")
+    if h:
+        f = _make(c, h["params"])
+        hy = _series({"y": h["y"], "origin": h["origin"], "idx": "range"})
+        try:
+            f.fit(hy)
+            f.predict(fh=[1, 2])
+        except Exception:
+            pass
+        if c["kind"] == "naive":
+            f.set_params(strategy=c["strategy"], sp=c["sp"], window_length=c["wl"])
+        else:
+            f.set_params(degree=c["degree"], with_intercept=c["icpt"])
+    else:
+        f = _make(c)
+
+    def first():
+        f.fit(y)
+        return f.predict(fh=_fh(c))
+    p1 = _attempt(first)
+    main = p1 if isinstance(p1, str) else _show_series(p1)
+    flags = []
+    if not isinstance(p1, str):
+        p2 = _attempt(lambda: f.predict(fh=_fh(c)))
+        flags.append("again=" + show_bool(not isinstance(p2, str) and _same_series(p1, p2)))
+    flags.append("kept=" + show_bool(_same_series(y, y_before)))
+    if h:
+        def fresh():
+            g = _make(c)
+            g.fit(_series(c))
+            return g.predict(fh=_fh(c))
+        q = _attempt(fresh)
+        same = (q == p1) if isinstance(p1, str) or isinstance(q, str) else _same_series(p1, q)
+        flags.append("fresh=" + show_bool(same))
+    return " ".join([main] + flags)
+
+
 def run_real(c):
     k = c["kind"]
     with warnings.catch_warnings():
         warnings.simplefilter("ignore")
         with np.errstate(all="ignore"):
             try:
-                if k == "naive":
-                    from sktime.forecasting.naive import NaiveForecaster
-                    y = _series(c)
-                    f = NaiveForecaster(strategy=c["strategy"], sp=c["sp"], window_length=c["wl"])
-                    f.fit(y)
-                    return _show_series(f.predict(fh=_fh(c)))
-                if k == "trend":
-                    from sktime.forecasting.trend import PolynomialTrendForecaster
-                    y = _series(c)
-                    f = PolynomialTrendForecaster(degree=c["degree"], with_intercept=c["icpt"])
-                    f.fit(y)
-                    return _show_series(f.predict(fh=_fh(c)))
+                if k in ("naive", "trend"):
+                    return _run_object(c)
                 if k == "design":
                     from sktime.forecasting.trend import PolynomialTrendForecaster
                     n, o = c["n"], c["origin"]
                     y = pd.Series(np.arange(n, dtype="float64"), index=pd.RangeIndex(o, o + n))
                     rec = _Recorder()
-                    f = PolynomialTrendForecaster(regressor=rec, degree=c["degree"], with_intercept=c["icpt"])
+                    h = c.get("hist")
+                    if h:
+                        hy = pd.Series(np.arange(len(h["y"]), dtype="float64"), index=pd.RangeIndex(h["origin"], h["origin"] + len(h["y"])))
+                        f = PolynomialTrendForecaster(regressor=_Recorder(), degree=h["params"]["degree"], with_intercept=h["params"]["icpt"])
+                        try:
+                            f.fit(hy)
+                            f.predict(fh=[1, 2])
+                        except Exception:
+                            pass
+                        f.set_params(regressor=rec, degree=c["degree"], with_intercept=c["icpt"])
+                    else:
+                        f = PolynomialTrendForecaster(regressor=rec, degree=c["degree"], with_intercept=c["icpt"])
                     f.fit(y)
                     p = f.predict(fh=_fh(c, n))
                     rows = lambda X: "-" if X is None or len(X) == 0 else ";".join(show_rats([float(v) for v in r]) for r in X)
@@ -266,6 +354,16 @@ def run_real(c):
 
 
 # ----------------------------------------------------------------------------- comparison
+FLAGS = ("again=", "kept=", "fresh=")
+
+
+def _split(out):
+    """(forecast part, {flag: 'T'|'F'}) of a real-code output"""
+    toks = out.split(" ")
+    flags = {t.split("=")[0]: t.split("=")[1] for t in toks if t.startswith(FLAGS)}
+    return " ".join(t for t in toks if not t.startswith(FLAGS)), flags
+
+
 def _parse(out):
     d = {}
     for tok in out.split(" "):
@@ -275,6 +373,7 @@ def _parse(out):
 
 
 def compare(real, model):
+    real = _split(real)[0]
     if real.startswith("E:") or model.startswith("E:"):
         return real == model
     r, m = _parse(real), _parse(model)
@@ -412,6 +511,8 @@ def oracle_naive(c, out):
 def _desc(c):
     if c["kind"] == "naive":
         return "strategy=%s sp=%d window_length=%s n=%d origin=%d" % (c["strategy"], c["sp"], c["wl"], len(c["y"]), c["origin"])
+    if c["kind"] == "trend":
+        return "trend degree=%d with_intercept=%s n=%d origin=%d" % (c["degree"], c["icpt"], len(c["y"]), c["origin"])
     return c["kind"]
 
 
@@ -518,11 +619,25 @@ def oracle_adapter(c, out):
 
 
 def oracle(c, out):
-    return {"naive": oracle_naive, "trend": oracle_trend, "design": oracle_design, "adapter": oracle_adapter}[c["kind"]](c, out)
+    main, flags = _split(out)
+    fails = {"naive": oracle_naive, "trend": oracle_trend, "design": oracle_design, "adapter": oracle_adapter}[c["kind"]](c, main)
+    if c.get("hist"):
+        # the textbook clauses above were evaluated for the NEW parameters and data: a failure here is a stale-state failure
+        fails = [(k + ":after-refit", m + " [object previously fitted with %r on %d other observations]" % (c["hist"]["params"], len(c["hist"]["y"])))
+                 for k, m in fails]
+    site = c["kind"] + (":" + c["strategy"] if c["kind"] == "naive" else "")
+    if flags.get("again") == "F":
+        fails.append((site + ":second-predict-differs", "a second predict(fh) on the same fitted object does not repeat the first answer (%s)" % _desc(c)))
+    if flags.get("kept") == "F":
+        fails.append((site + ":caller-series-modified", "the series passed to fit was modified by fit/predict (%s)" % _desc(c)))
+    if flags.get("fresh") == "F":
+        fails.append((site + ":history-dependent", "forecast after set_params + fit differs from a new object's with the same parameters and data (%s; before: %r)" % (_desc(c), c["hist"]["params"])))
+    return fails
 
 
 # ----------------------------------------------------------------------------- evidence helpers
 def nontrivial(c, out):
+    out = _split(out)[0]
     if out.startswith("E:"):
         return False
     d = _parse(out)
@@ -532,7 +647,9 @@ def nontrivial(c, out):
 
 
 def features(c, out):
-    f = ["kind=" + c["kind"]]
+    out, flags = _split(out)
+    f = ["kind=" + c["kind"], "history=" + ("refit-after-set_params" if c.get("hist") else "fresh-object")]
+    f += ["%s=%s" % kv for kv in sorted(flags.items())]
     if c["kind"] == "naive":
         f.append("naive=%s/sp%s" % (c["strategy"], "1" if c["sp"] == 1 else ">1"))
         w = naive_window_length(c) if c["strategy"] in ("last", "mean", "drift") else 0
@@ -568,9 +685,39 @@ def _values(rng, n, nan=False, integer=None):
     return ys
 
 
-def _naive(rng, st, sp, wl, n, fh, nan=False, **kw):
-    return dict({"kind": "naive", "strategy": st, "sp": sp, "wl": wl, "y": _values(rng, n, nan), "origin": rng.choice(ORIGINS),
-                 "idx": rng.choice(["range", "range", "int"]), "fh": list(fh), "rel": rng.random() < 0.7}, **kw)
+def _hist_naive(rng):
+    """another VALID configuration and other data for the earlier life of the object"""
+    st = rng.choice(["last", "mean", "drift"])
+    n0 = rng.randrange(2, 11)
+    sp = rng.choice([1, 2, 3, 4])
+    sp = min(sp, n0)
+    if st == "last":
+        wl = None
+    elif st == "mean":
+        wl = rng.choice([None] + list(range(max(1, sp if sp > 1 else 1), n0 + 1)))
+    else:
+        wl = rng.choice([None] + list(range(2, n0 + 1)))
+    return {"params": {"strategy": st, "sp": sp, "wl": wl}, "y": _values(rng, n0), "origin": rng.choice(ORIGINS)}
+
+
+def _hist_trend(rng):
+    deg = rng.choice([0, 1, 2, 3])
+    return {"params": {"degree": deg, "icpt": True if deg == 0 else rng.random() < 0.6}, "y": _values(rng, rng.randrange(2, 9)),
+            "origin": rng.choice(ORIGINS)}
+
+
+def _naive(rng, st, sp, wl, n, fh, nan=False, hist=0.3, **kw):
+    c = dict({"kind": "naive", "strategy": st, "sp": sp, "wl": wl, "y": _values(rng, n, nan), "origin": rng.choice(ORIGINS),
+              "idx": rng.choice(["range", "range", "int"]), "fh": list(fh), "rel": rng.random() < 0.7}, **kw)
+    if rng.random() < hist:
+        c["hist"] = _hist_naive(rng)
+    return c
+
+
+def _with_hist(rng, c, prob=0.5):
+    if rng.random() < prob:
+        c["hist"] = _hist_trend(rng)
+    return c
 
 
 def naive_configs(nmax=14, spmax=4):
@@ -644,15 +791,15 @@ def gen_cases(tier, rng):
                 reps = 6 if thorough else 1
                 for _ in range(reps):
                     fh = UNIVERSE if rng.random() < 0.4 else sorted(rng.sample(UNIVERSE, rng.randrange(1, 7)))
-                    cases.append({"kind": "trend", "degree": deg, "icpt": icpt, "y": _values(rng, n, nan=rng.random() < 0.05),
-                                  "origin": rng.choice(ORIGINS), "idx": rng.choice(["range", "int"]), "fh": list(fh),
-                                  "rel": rng.random() < 0.7})
+                    cases.append(_with_hist(rng, {"kind": "trend", "degree": deg, "icpt": icpt, "y": _values(rng, n, nan=rng.random() < 0.05),
+                                                  "origin": rng.choice(ORIGINS), "idx": rng.choice(["range", "int"]), "fh": list(fh),
+                                                  "rel": rng.random() < 0.7}))
     for _ in range(1500 if thorough else 300):
         n = rng.randrange(2, 50)
         deg = rng.choice([0, 1, 1, 1, 2, 3, 4])
         fh = sorted(rng.sample(range(-min(n + 2, 10), 20), rng.randrange(1, 8)))
-        cases.append({"kind": "trend", "degree": deg, "icpt": rng.random() < 0.7, "y": _values(rng, n), "origin": rng.choice(ORIGINS),
-                      "idx": rng.choice(["range", "int"]), "fh": fh, "rel": rng.random() < 0.7})
+        cases.append(_with_hist(rng, {"kind": "trend", "degree": deg, "icpt": rng.random() < 0.7, "y": _values(rng, n), "origin": rng.choice(ORIGINS),
+                                      "idx": rng.choice(["range", "int"]), "fh": fh, "rel": rng.random() < 0.7}))
     # 6. design matrices handed to the regressor
     for n in range(1, 15):
         for deg in range(0, 6):
@@ -660,8 +807,8 @@ def gen_cases(tier, rng):
                 if not thorough and (n + deg + rot) % 3 != 0:
                     continue
                 fh = sorted(rng.sample(UNIVERSE, rng.randrange(1, 7)))
-                cases.append({"kind": "design", "degree": deg, "icpt": icpt, "n": n, "origin": rng.choice(ORIGINS), "fh": fh,
-                              "rel": rng.random() < 0.7})
+                cases.append(_with_hist(rng, {"kind": "design", "degree": deg, "icpt": icpt, "n": n, "origin": rng.choice(ORIGINS), "fh": fh,
+                                              "rel": rng.random() < 0.7}))
     cases.append({"kind": "design", "degree": 2, "icpt": True, "n": 4, "origin": 0, "fh": [], "rel": True})
     cases.append({"kind": "design", "degree": 2, "icpt": True, "n": 4, "origin": 0, "fh": [1, 1], "rel": True})
     # 7. statsmodels adapters against a direct statsmodels call
@@ -679,6 +826,11 @@ def gen_cases(tier, rng):
 
 
 def shrink(c):
+    if c.get("hist"):
+        yield {k: v for k, v in c.items() if k != "hist"}
+        hy = c["hist"]["y"]
+        if len(hy) > 2:
+            yield dict(c, hist=dict(c["hist"], y=hy[:-1]))
     if c["kind"] in ("naive", "trend", "adapter"):
         fh = c["fh"]
         for i in range(len(fh)):
